@@ -93,3 +93,66 @@ n('C02', 'amat_x: update written as r = r - (...)', CORE,
 n('C02', 'VolumeModel: eta factored differently', MODELS,
   "eta = -sfield.smu0*vol*(cond + smu)",
   "eta = -(sfield.smu0*vol*cond + vol*smu*sfield.smu0)")
+
+# ------------------------------------------------------------------- C03
+m('C03', 'gauss_seidel: sign of amat[3]', CORE,
+  "amat[3] = mzyRxm/hx[ixm]    # 3,0| 3", "amat[3] = -mzyRxm/hx[ixm]    # 3,0| 3",
+  'C03.S1')
+m('C03', 'gauss_seidel: one rhs term dropped', CORE,
+  "                    rhs[1] += myzLxp*(ez[ixp, iy, izm]/hx[ix] +\n                                      ex[ix, iy, izm]/hz[izm])\n",
+  "", 'C03.S1')
+m('C03', 'gauss_seidel: unknown order swapped in write-back only', CORE,
+  "                    ex[ixm, iy, iz] = rhs[0]\n                    ex[ix, iy, iz] = rhs[1]",
+  "                    ex[ixm, iy, iz] = rhs[1]\n                    ex[ix, iy, iz] = rhs[0]",
+  'C03.S1')
+m('C03', 'gauss_seidel: /4. -> /2. in sigma average', CORE,
+  "st = np.array([st0, st1, st2, st3, st4, st5])/4.",
+  "st = np.array([st0, st1, st2, st3, st4, st5])/2.", 'C03.S1')
+m('C03', 'gauss_seidel_x: hx[ixm]->hx[ix] in left[6]', CORE,
+  "left[6] = -mzxLym/hx[ixm]   # 1,1| 6", "left[6] = -mzxLym/hx[ix]   # 1,1| 6",
+  'C03.S2')
+m('C03', 'gauss_seidel_x: left sign flip', CORE,
+  "left[10] = -mzyRxm/hx[ixm]  # 0,2|10", "left[10] = mzyRxm/hx[ixm]  # 0,2|10",
+  'C03.S2')
+m('C03', 'gauss_seidel_x: middle[13] stored at 12', CORE,
+  "middle[13] = mxzLyp/hy[iy]   # 3,2|13 and 2,3|17",
+  "middle[12] = mxzLyp/hy[iy]   # 3,2|13 and 2,3|17", 'C03.S2')
+m('C03', 'gauss_seidel_y: left[5] uses hx instead of hy', CORE,
+  "left[5] = mzxLym/hy[iym]    # 0,1| 5", "left[5] = mzxLym/hx[ixm]    # 0,1| 5",
+  'C03.S2')
+m('C03', 'gauss_seidel_z: write-back of unknowns 1 and 3 swapped', CORE,
+  "                        ex[ixm, iy, iz] = bvec[1+5*izm]",
+  "                        ex[ixm, iy, iz] = bvec[3+5*izm]", 'C03.S')
+m('C03', 'blocks_to_amat: left placed with fam instead of mam', CORE,
+  "amat[k+fam+5*(m+mam)] = left[k+5*m]", "amat[k+fam+5*(m+fam)] = left[k+5*m]",
+  'C03.S')
+m('C03', 'blocks_to_amat: last block reads left[5*m+1]', CORE,
+  "amat[fam+5*(m+mam)] = left[5*m]", "amat[fam+5*(m+mam)] = left[5*m+1]",
+  'C03.S2')
+m('C03', 'core.solve: band lower bound j-4', CORE,
+  "        for k in range(max(0, j-5), j):\n            h += amat[j+5*k]*bvec[k]",
+  "        for k in range(max(0, j-4), j):\n            h += amat[j+5*k]*bvec[k]",
+  'C03.S5')
+m('C03', 'gauss_seidel_x: write-back also hits ix = nx boundary', CORE,
+  "                    if ixm < nx-1:\n                        ey[ix, iym, iz] = bvec[1+5*ixm]",
+  "                    if ixm < nx:\n                        ey[ix, iym, iz] = bvec[1+5*ixm]",
+  'C03.S')
+m('C03', 'gauss_seidel: sweep includes boundary plane iz = nz', CORE,
+  "        for izh in range(1, nz):", "        for izh in range(0, nz):",
+  'C03.S4')
+m('C03', 'smoothing: dispatch list [1,5,6,7] -> [1,4,6,7]', SOLVER,
+  "if c_lr_dir in [1, 5, 6, 7]:  # Line relaxation in x-direction",
+  "if c_lr_dir in [1, 4, 6, 7]:  # Line relaxation in x-direction", 'C03.S6')
+m('C03', '_current_lr_dir: 5 -> 2 instead of 5 -> 3', SOLVER,
+  "        elif c_lr_dir == 5:\n            c_lr_dir = 3\n        elif c_lr_dir == 6:\n            c_lr_dir = 2",
+  "        elif c_lr_dir == 5:\n            c_lr_dir = 2\n        elif c_lr_dir == 6:\n            c_lr_dir = 2",
+  'C03.S6')
+n('C03', 'gauss_seidel_x: rhs term re-associated', CORE,
+  "rhs[0] += mzyRxm*ex[ixm, iyp, iz]/hy[iy]",
+  "rhs[0] += (ex[ixm, iyp, iz]/hy[iy])*mzyRxm")
+n('C03', 'gauss_seidel: st computed with *0.25', CORE,
+  "st = np.array([st0, st1, st2, st3, st4, st5])/4.",
+  "st = np.array([st0*0.25, st1*0.25, st2*0.25, st3*0.25, st4*0.25, st5*0.25])/1.")
+n('C03', 'smoothing: dispatch list reordered', SOLVER,
+  "if c_lr_dir in [1, 5, 6, 7]:  # Line relaxation in x-direction",
+  "if c_lr_dir in [7, 6, 5, 1]:  # Line relaxation in x-direction")
